@@ -156,7 +156,7 @@ def safe_smiles(mg):
         return f"<smiles raised {exc!r}>"
 
 
-SOFT_DEADLINE = {"quick": 75.0, "thorough": 2400.0}  # seconds per shard; only stops *generating more cases*, never an oracle
+SOFT_DEADLINE = {"quick": 75.0, "thorough": 1200.0}  # seconds per shard; only stops *generating more cases*, never an oracle
 MAX_PATHS = {"quick": 250, "thorough": 3000}
 
 
